@@ -45,6 +45,8 @@ def step (s : St) (ts : List String) : St × String :=
   match ts with
   | ["I", t, sym, shs, pr] =>
     ({ s with buffer := s.buffer ++ [parseOrder t sym shs pr] }, "ok")
+  | ["I", t, sym, shs, pr, id] =>       -- an order object whose `order_id` is already set when it is handed in
+    ({ s with buffer := s.buffer ++ [{ parseOrder t sym shs pr with id := some id.toNat! }] }, "ok")
   | ["D", id] =>
     let s' := { s with book := s.book.delete id.toNat! }
     (s', s!"ok ; {snapshot s'}")
